@@ -46,7 +46,7 @@ def run(tier):
     rng = np.random.RandomState(chk.seed + 303)
     chk.assumptions += [
         "float costs are compared through an order-preserving rank encoding (winner-takes-all only compares costs)",
-        "costs are finite or NaN (no built-in measure produces +-inf)",
+        "costs are finite or NaN; +inf (min-type) / -inf (max-type) costs only at pixels that also hold a finite cost",
     ]
     res = chk.tlc("MC_Disparity", "MC_Disparity.cfg", label="wta_theorems", workers=8, timeout=600)
     for inv in res.invariant_violations:
@@ -63,17 +63,29 @@ def run(tier):
                 inv = [-9999, float("nan"), 7][n % 3]
                 dmin = int(rng.randint(-3, 2))
                 costs = gen_costs(rng, rows, cols, nd, style)
+                with_inf = (n % 4 == 1)
+                if with_inf:
+                    # infinitely bad costs (a plugin's cost volume may hold them): +inf for min-type, -inf for max-type, and
+                    # only at pixels that keep a finite cost, so that the winner is not in question
+                    cell = (rng.rand(rows, cols, nd) < 0.25) & ~np.isnan(costs)
+                    keep = np.zeros_like(cell)
+                    first = np.argmax(np.isfinite(costs), axis=2)
+                    np.put_along_axis(keep, first[:, :, None], True, axis=2)
+                    costs[cell & ~keep] = np.inf if type_measure == "min" else -np.inf
                 vm = rng.choice([0, 0, 0, 1, 2, 4, 64, 66, 128], size=(rows, cols))
                 with_conf = (n % 2 == 0)
                 conf = (["confidence_from_ambiguity", "confidence_from_x.1"], rng.rand(rows, cols, 2)) if with_conf else None
-                cv = build.make_cv(costs, dmin=dmin, subpix=subpix, type_measure=type_measure, vm=vm, conf=conf)
+                # bands are float32 when Pandora's own methods made them; a plugin or the API may hand over float64
+                cdt = np.float64 if n % 4 == 2 else np.float32
+                cv = build.make_cv(costs, dmin=dmin, subpix=subpix, type_measure=type_measure, vm=vm, conf=conf, conf_dtype=cdt)
                 before = cv["cost_volume"].data.copy()
                 csnap = conf_snapshot(cv)
                 n += 1
                 cid = f"w{n}"
                 chk.count((rows, cols, nd, subpix, type_measure, style, str(inv)))
                 feat = {"rows": rows, "cols": cols, "nd": nd, "subpix": subpix, "type": type_measure, "style": style,
-                        "invalid_disparity": str(inv), "blocks": rows > 100 or cols > 100}
+                        "invalid_disparity": str(inv), "blocks": rows > 100 or cols > 100,
+                        "infinite_costs": with_inf, "conf_dtype": np.dtype(cdt).name if with_conf else None}
                 try:
                     d = disparity.AbstractDisparity(disparity_method="wta", invalid_disparity=inv)
                     out = d.to_disp(cv)
